@@ -1,6 +1,6 @@
 (* extraction of the executable (exact rational) instance of the C06 model; Z / positive / Q stay the extracted inductives *)
 From Coq Require Import List ZArith QArith Extraction ExtrOcamlBasic.
-From LN Require Import C06_Defs.
+From LN Require Import C06_Defs C06_Convex2_Defs.
 Extraction Language OCaml.
 Extraction "extracted/c06_model.ml" Qops Qplus Qminus Qmult Qopp Qle_bool Qred
   k_mse_v k_mse_g k_mae_v k_mae_g k_hinge_v k_hinge_g k_sqhinge_v k_sqhinge_g k_pinball_v k_pinball_g
@@ -9,4 +9,7 @@ Extraction "extracted/c06_model.ml" Qops Qplus Qminus Qmult Qopp Qle_bool Qred
   qing_v qing_g styblinski_v styblinski_g trid_v trid_g rosenbrock_v rosenbrock_g dixon_v dixon_g
   chained_lq_v chained_lq_g rotated_v rotated_g maxq_v maxq_g
   cons_ball_v cons_ball_g cons_linear_v cons_linear_g cons_coord_v cons_coord_g
-  size_rosenbrock size_powell size_enet size_linear size_surrogate_fit.
+  size_rosenbrock size_powell size_enet size_linear size_surrogate_fit
+  (* extension (C06_Convex2_Defs) *)
+  zeros mv mtv identity madd gram gram1 quad_v quad_g cq_v cq_g wreg_v wreg_g pospart maxval maxabs_v maxabs_g hilbert maxhilb_v maxhilb_g
+  kinks_v kinks_g mq_piece mq_grad maxquad_v maxquad_g maxquad_test inv_nat sample_out erm_v erm_g lin_v lin_g enet_v enet_g design lin_cw.
